@@ -102,12 +102,23 @@ class _Subst(ast.NodeTransformer):
         return n
 
 
-def normalise(fn):
-    """a copy of fn in which (a) local names bound ONCE to a path into the per-symbol input (`x = candles[j]`, `y = x['candles']`) are
-    replaced by that path, and their assignments dropped; (b) statements after an early `continue`/`return` are nested under the negated test.
-    Both rewrites preserve what the function reads; they only bring harmless re-arrangements back to the shapes accesses() knows."""
+def _is_int_expr(e, ints):
+    """an integer expression over the step variables (and other integer locals already resolved)"""
+    if isinstance(e, ast.Constant):
+        return isinstance(e.value, int) and not isinstance(e.value, bool)
+    if isinstance(e, ast.Name):
+        return e.id in ints
+    if isinstance(e, ast.BinOp) and isinstance(e.op, (ast.Add, ast.Sub, ast.Mult, ast.Mod, ast.FloorDiv)):
+        return _is_int_expr(e.left, ints) and _is_int_expr(e.right, ints)
+    if isinstance(e, ast.UnaryOp) and isinstance(e.op, ast.USub):
+        return _is_int_expr(e.operand, ints)
+    return False
+
+
+def _inline_aliases(fn, int_names):
+    """local names bound ONCE to a path into the per-symbol input (`x = candles[j]`, `y = x['candles']`) or to an integer expression over the
+    step variables (`chunk_end = i + candles_step`, `i = candle_index`) are replaced by what they stand for; their assignments are dropped"""
     import copy
-    fn = copy.deepcopy(fn)
     stores = {}
     for n in ast.walk(fn):
         if isinstance(n, ast.Name) and isinstance(n.ctx, ast.Store):
@@ -121,13 +132,15 @@ def normalise(fn):
         for n in ast.walk(fn):
             if isinstance(n, ast.Assign) and len(n.targets) == 1 and isinstance(n.targets[0], ast.Name):
                 nm = n.targets[0].id
-                if nm in table or stores.get(nm) != 1 or nm in ('candles', 'i', 'j', 'count'):
+                if nm in table or stores.get(nm) != 1 or nm in ('candles', 'j', 'count'):
                     continue
                 v = n.value
                 names = {x.id for x in ast.walk(v) if isinstance(x, ast.Name)}
                 if _is_path(v, table) and ('j' in names or names & set(table)):
-                    table[nm] = _Subst(table).visit(copy.deepcopy(v))
-                    changed = True
+                    table[nm] = _Subst(table).visit(copy.deepcopy(v)); changed = True
+                elif _is_int_expr(v, set(int_names) | {k for k, t in table.items() if _is_int_expr(t, set(int_names))}) and names \
+                        and not (isinstance(v, ast.Name) and v.id == nm):
+                    table[nm] = _Subst(table).visit(copy.deepcopy(v)); changed = True
     if table:
         class Drop(ast.NodeTransformer):
             def visit_Assign(self, n):
@@ -136,6 +149,78 @@ def normalise(fn):
                 return self.generic_visit(n)
         fn = Drop().visit(fn)
         fn = _Subst(table).visit(fn)
+    return fn
+
+
+def _loops_over_values(fn):
+    """`for x in candles.values():` / `for j, x in candles.items():`  ==>  `for j in candles:` with x standing for candles[j]"""
+    import copy
+
+    class T(ast.NodeTransformer):
+        def visit_For(self, n):
+            self.generic_visit(n)
+            it = n.iter
+            if isinstance(it, ast.Call) and isinstance(it.func, ast.Attribute) and isinstance(it.func.value, ast.Name) and it.func.value.id == 'candles' and not it.args:
+                item = None
+                if it.func.attr == 'values' and isinstance(n.target, ast.Name):
+                    item = n.target.id
+                elif it.func.attr == 'items' and isinstance(n.target, ast.Tuple) and len(n.target.elts) == 2 and all(isinstance(e, ast.Name) for e in n.target.elts):
+                    item = n.target.elts[1].id
+                    key = n.target.elts[0].id
+                    n.body = [_Subst({key: ast.Name('j', ast.Load())}).visit(b) for b in n.body]
+                if item is not None:
+                    path = ast.Subscript(ast.Name('candles', ast.Load()), ast.Name('j', ast.Load()), ast.Load())
+                    n.body = [_Subst({item: path}).visit(b) for b in n.body]
+                    n.target = ast.Name('j', ast.Store())
+                    n.iter = ast.Name('candles', ast.Load())
+            return n
+    return T().visit(copy.deepcopy(fn))
+
+
+def _inline_helpers(fn, fns, depth=0):
+    """a call statement `helper(..., <path into the input>, ...)` of a function defined in the same module is replaced by the helper's body with
+    the arguments substituted: what the helper reads of the input is read at the call site.  Only helpers that are plain procedures (no value
+    used, a final bare return at most) are inlined; anything else is left for accesses() to reject."""
+    import copy
+
+    def mentions_input(e):
+        return any(isinstance(x, ast.Name) and x.id == 'candles' for x in ast.walk(e))
+
+    class T(ast.NodeTransformer):
+        def visit_Expr(self, n):
+            c = n.value
+            if isinstance(c, ast.Call) and isinstance(c.func, ast.Name) and c.func.id in fns and c.func.id not in ALLOWED_CALLS and c.func.id != fn.name \
+                    and not c.keywords and any(mentions_input(a) for a in c.args):
+                h = fns[c.func.id]
+                params = [a.arg for a in h.args.args]
+                if len(params) != len(c.args) or h.args.vararg or h.args.kwarg or h.args.kwonlyargs:
+                    return n
+                body = [b for b in h.body if not (isinstance(b, ast.Expr) and isinstance(b.value, ast.Constant))]
+                if any(isinstance(x, ast.Return) and x.value is not None for b in body for x in ast.walk(b)) or \
+                        any(isinstance(x, (ast.Yield, ast.YieldFrom, ast.Global, ast.Nonlocal)) for b in body for x in ast.walk(b)):
+                    return n
+                stored = {x.id for b in body for x in ast.walk(b) if isinstance(x, ast.Name) and isinstance(x.ctx, ast.Store)}
+                if stored & set(params):
+                    return n
+                table = {p_: a for p_, a in zip(params, c.args)}
+                return [_Subst(table).visit(copy.deepcopy(b)) for b in body if not isinstance(b, ast.Return)]
+            return n
+    out = T().visit(fn)
+    return out
+
+
+def normalise(fn, fns=None, int_names=('i', 'candle_index', 'candles_step', 'count', 'length')):
+    """a copy of fn brought back to the shapes accesses() knows, by rewrites that preserve what the function reads of the input:
+    loops over candles.values()/items() become loops over the keys; aliases of paths into the input and of integer expressions are inlined;
+    procedure-like helpers that receive a path into the input are inlined at the call; statements after an early `continue`/`return` are
+    nested under the negated test."""
+    import copy
+    fn = _loops_over_values(fn)
+    fn = _inline_aliases(fn, int_names)
+    if fns:
+        fn = _inline_helpers(fn, fns)
+        fn = _loops_over_values(fn)
+        fn = _inline_aliases(fn, int_names)
     fn.body = _nest_early_exits(fn.body)
     ast.fix_missing_locations(fn)
     return fn
@@ -241,6 +326,7 @@ def check_warmup(repo):
     if '_isolated_backtest' not in fns:
         raise Untranslatable(f'{path}: _isolated_backtest not found')
     fn = fns['_isolated_backtest']
+    mod_fns = {n.name: n for n in tree.body if isinstance(n, ast.FunctionDef) and n.name != '_isolated_backtest'}
     parents = {}
     for n in ast.walk(fn):
         for c in ast.iter_child_nodes(n):
@@ -256,6 +342,13 @@ def check_warmup(repo):
         if isinstance(n, ast.Name) and n.id == 'candles' and isinstance(n.ctx, ast.Load):
             p = parents[n]
             ok = (isinstance(p, ast.Call) and ast.unparse(p) == 'copy.deepcopy(candles)')
+            if not ok and isinstance(p, ast.Call) and isinstance(p.func, ast.Name) and p.func.id in mod_fns and n in p.args:
+                # handed to a helper of the same module that only inspects it (validation): the helper must not reach the store, the router or
+                # the simulator, import anything, or call anything but builtins / exceptions on it
+                h = mod_fns[p.func.id]
+                reach = {x.id for x in ast.walk(h) if isinstance(x, ast.Name)} | {x.attr for x in ast.walk(h) if isinstance(x, ast.Attribute)}
+                ok = not (reach & {'store', 'router', 'simulator', 'inject_warmup_candles_to_store', 'jesse_config', 'set_config', 'add_candle', 'storage'}) \
+                    and not any(isinstance(x, (ast.Import, ast.ImportFrom, ast.Global)) for x in ast.walk(h))
             if not ok and not (isinstance(p, ast.Attribute) and p.attr in ('items', 'values', 'keys')):
                 raise Untranslatable(f'{path}: line {n.lineno}: unrecognised use of the input candles in _isolated_backtest')
     inj = [n for n in ast.walk(fn) if isinstance(n, ast.Call) and isinstance(n.func, ast.Name) and n.func.id == 'inject_warmup_candles_to_store']
@@ -302,18 +395,16 @@ def generate(path):
     # _simulate_new_candles(candles, candle_index, candles_step): i = candle_index
     if [a.arg for a in new_fn.args.args] != ['candles', 'candle_index', 'candles_step']:
         raise Untranslatable('_simulate_new_candles: unexpected parameters')
-    first = new_fn.body[0]
-    if not (isinstance(first, ast.Assign) and ast.unparse(first) == 'i = candle_index'):
-        raise Untranslatable('_simulate_new_candles: does not start with i = candle_index')
     for n in ast.walk(new_fn):
-        if isinstance(n, ast.Name) and isinstance(n.ctx, ast.Store) and n.id in ('i', 'candles_step', 'count') and n is not first.targets[0]:
-            if n.id == 'count' and isinstance(n.ctx, ast.Store):
+        if isinstance(n, ast.Name) and isinstance(n.ctx, ast.Store) and n.id in ('i', 'candle_index', 'candles_step'):
+            p_ = [m for m in ast.walk(new_fn) if isinstance(m, ast.Assign) and n in m.targets]
+            if n.id == 'i' and p_ and ast.unparse(p_[0]) == 'i = candle_index':
                 continue
             raise Untranslatable(f'_simulate_new_candles: {n.id} is reassigned at line {n.lineno}')
-    sa = accesses(normalise(step_fn), {'i': 'i', 'count': 'count'})
-    fa = accesses(normalise(new_fn), {'i': 'i', 'count': 'count', 'candles_step': 'step'})
+    sa = accesses(normalise(step_fn, fns), {'i': 'i', 'count': 'count'})
+    fa = accesses(normalise(new_fn, fns), {'i': 'i', 'candle_index': 'i', 'count': 'count', 'candles_step': 'step'})
     # _skip_simulator itself must not touch the rows
-    ka = accesses(normalise(skip_fn), {'i': 'i', 'candles_step': 'step'})
+    ka = accesses(normalise(skip_fn, fns), {'i': 'i', 'candles_step': 'step'})
     if ka:
         raise Untranslatable(f'_skip_simulator reads the input rows directly at lines {[a[0] for a in ka]}')
 
